@@ -473,5 +473,11 @@ KIND = {
                      "reference semantics defines a value; distinct = distinct expression texts"},
 }
 
+# plug-in kinds: every harness/kind_<name>.py exposes KIND = {"<kind>": {"slice", "replay", "rule"}}
+for _f in sorted(os.listdir(HERE)):
+    if _f.startswith("kind_") and _f.endswith(".py"):
+        _m = __import__(_f[:-3])
+        KIND.update(getattr(_m, "KIND", {}))
+
 if __name__ == "__main__":
     sys.exit(main())
